@@ -68,7 +68,7 @@ PLANS = {
     "C15": [hist("big", 1, 40000, 300000), hist("realloc", 1, 480000, 3000000), enum_retain("native", 8, 9, random=300, tiers=("quick",)), enum_retain("native", 16, 12, random=4000, tiers=("thorough",)),
             enum_retain("miri", 16, 3, bare=True, tiers=("quick",)), enum_retain("miri", 16, 5, bare=True, tiers=("thorough",)),
             hist("retain", 6, 480000, 4500000)],
-    "C16": [job("inject", "native", 12, [], budget={"quick": 40000, "thorough": 1500000}, budget_arg="cases", reports_to=MEM),
+    "C16": [job("inject_big", "native", 2, [], budget={"quick": 150000, "thorough": 600000}, budget_arg="n", reports_to=MEM), job("inject", "native", 12, [], budget={"quick": 40000, "thorough": 1500000}, budget_arg="cases", reports_to=MEM),
             job("inject", "asan", 4, ["--markers", "1"], budget={"quick": 15000, "thorough": 400000}, budget_arg="cases", reports_to=MEM, asan_options=ASAN_NOLEAK),
             job("inject", "miri", 16, ["--markers", "1", "--further-min", "2", "--further-max", "5"], budget={"quick": 25, "thorough": 800}, budget_arg="cases", reports_to=MEM, miri_flags=LEAK_OK_MIRI + " -Zmiri-disable-stacked-borrows")],
     "C17": [enum_iter("native", 8, 6, True, random=300, extra=1, tiers=("quick",)), enum_iter("native", 16, 9, True, random=3000, extra=1, tiers=("thorough",)),
@@ -108,7 +108,7 @@ FLOORS = {
     "C14": {"evaluations": {"quick": 100000, "thorough": 3000000}, "distinct": 100, "c14_ops_with_sibling_caches": 50000},
     "C15": {"evaluations": {"quick": 2000, "thorough": 20000}, "distinct": 60},
     "C16": {"evaluations": {"quick": 200000, "thorough": 5000000}, "distinct": 1000, "each:c16_fired_": 20, "c16_hash_panic_in_explicit_rebuild": 1000, "c16_hash_panic_in_growing_insert": 300,
-            "c16_further_use_ops": 100000, "c16_dropped_after": 100000},
+            "c16_further_use_ops": 100000, "c16_dropped_after": 100000, "c16_big_state_injections": 40},
     "C17": {"evaluations": {"quick": 10000, "thorough": 100000}, "distinct": 2000, "sum:c17_forgot_": 2000, "c17_forgot_drain": 300, "c17_further_use_ops": 2000, "c17_caches_dropped_after_forget": 1000},
     "C18": {"evaluations": 128, "distinct": 128, "c18_table_rows": 64, "c18_rows_expected_send": 8, "c18_rows_expected_not_send": 56, "c18_moved_across_threads": 20, "c18_nonstatic_exercise_runs": 1},
     "C19": {"evaluations": {"quick": 5000, "thorough": 80000}, "distinct": 100, "c19_shared_ops_under_write_trap": 500000, "c19_thread_runs_under_write_trap": 10000, "c19_state_empty": 50, "c19_state_single": 50,
@@ -132,7 +132,7 @@ RULES = {
     "C13": "Histories with capacity operations anywhere (arguments 0, small, len, capacity+-1, usize::MAX, usize::MAX-len), allocator refusal injected into try_reserve at its 1st..3rd allocation (a refusal the library does not handle aborts the process: reported through the process status and the marker of the call), automatic growth compared with the capacity a fresh with_capacity(2*len) table gets from the library itself, with_capacity(n) promise (also for n up to 3*10^5 quick / 3*10^6 thorough in a dedicated run with reserve/shrink at that scale), growth bound tracked per history, constant-length churn of 10^6-10^8 operations. distinct = (operation, rebuilt?, length class, argument class, outcome).",
     "C14": "Clone checked against its source right after clone() (ids, order, recorded sizes, scalars, capacity, disjoint object ids and node addresses, source fingerprint unchanged); afterwards every operation on any cache must leave every sibling cache's observation and structural fingerprint unchanged; `clone_from` between clones and independently constructed caches (own hasher instance, other limit and capacity) must make the target equal to the source in the same sense. Also under ASan and Miri (shared ownership would be a double free). distinct = (length class, hasher, tombstones?, ...) and (operation, sibling length).",
     "C15": "Exhaustive enumeration of all 2^n reject-subsets (by recency position) for n <= N on caches with shuffled recency order, tombstones and a reallocation; predicate call log must equal the pre-order with the stored addresses; survivors, len/current_size, ledger of rejected objects. Plus patterned/random predicates on lists up to 60 and retain inside random histories. distinct = (length class, subset shape, #rejected class, hasher).",
-    "C16": "Fault enumeration: small cache states built by random histories (0-14 events, universe 3-8, all hashers, incl. table exactly full and cache full); for each state ~40 operations covering the whole mutating and cloning API; a counting run yields the number of user callbacks per class (hash, eq, clone, key size, value size, mutate closure, retain predicate); then for EVERY class and EVERY index n the state is rebuilt by replay, the n-th callback panics, and the monitor checks: hook walk both ways mirrors / == len() / node set == buckets, public traversals and lookups agree, current_size == sum of recorded sizes, no held object dropped, no double drop; closure panics additionally bound + nothing lost; then 6-20 further random operations with the same checks, then drop. Same under ASan and Miri (touching a freed bucket is a hard report). evaluations = injected panics that fired; distinct = (operation, class, index, state length, hasher, rebuilt?, post length).",
+    "C16": "Fault enumeration: small cache states built by random histories (0-14 events, universe 3-8, all hashers, incl. table exactly full and cache full); for each state ~40 operations covering the whole mutating and cloning API; a counting run yields the number of user callbacks per class (hash, eq, clone, key size, value size, mutate closure, retain predicate); then for EVERY class and EVERY index n the state is rebuilt by replay, the n-th callback panics, and the monitor checks: hook walk both ways mirrors / == len() / node set == buckets, public traversals and lookups agree, current_size == sum of recorded sizes, no held object dropped, no double drop; closure panics additionally bound + nothing lost; then 6-20 further random operations with the same checks, then drop. A second cache (independently built) is present so that clone_from is injected into as well. A separate run injects Hash panics at the first, last, power-of-two and random positions of table rebuilds and clones of caches with 10^4-6*10^5 entries. Same under ASan and Miri (touching a freed bucket is a hard report). evaluations = injected panics that fired; distinct = (operation, class, index, state length, hasher, rebuilt?, post length).",
     "C17": "Fault enumeration: for each of the 7 iterator kinds, every length 0..=N and every next/next_back string of length <= len+1, the iterator is mem::forget-ed; afterwards the cache (if any) is observed (gate G1-G3), must not list any object the iterator handed out, is used by ~12 further operations with all transition oracles on, and is dropped; the ledger must show no double drop. Same under ASan (leak check off) and Miri (-Zmiri-ignore-leaks).",
     "C18": "Auto-trait truth table read at run time: a trait probe (inherent associated const on Probe<T: Send> shadowing a blanket trait const) is instantiated for LruCache<K, V, S> with K, V, S ranging over {u8 (Send+Sync), Cell<u8> (Send only), MutexGuard<'static, u8> (Sync only), Rc<u8> (neither)} = 64 types x {Send, Sync}; every entry must equal 'all three are Send' / 'all three are Sync'. The probe is first checked on types with known auto traits. The positive direction is exercised: caches are moved to another thread, mutated there and moved back; &cache is shared by 3-4 reader threads natively and under Miri's race detector; a separate exercise program does the same with NON-'static parameters (keys, values and hasher borrowing from a local, scoped threads) — if it stops compiling while the rest of the harness builds, that is reported as a violation with the compiler's message. NOT decided: the borrowing/lifetime sentence of C18 (a statement about programs the compiler rejects; no execution can witness it).",
     "C19": "(a) MMU write trap: the boxed cache, its table, seal and all keys/values are built inside an mmap arena which is then mprotect-ed read-only; every shared-reference operation (peek/peek_entry/contains for every present and absent id in both key forms, peek_lru/mru, len/is_empty/current_size/max_size/capacity/hasher, iter/keys/values forward, backward and interleaved, Debug, clone + drop of the clone, the hook walk) runs on one thread and then on 4 threads at once; any store into the arena, even of the value already there, raises SIGSEGV -> WRITE-TRAP. (b) byte hash of the arena region and full observation before/after. (c) the same operations from 3 threads under Miri (happens-before race detector) and (d, thorough) ThreadSanitizer. Plus the fingerprint facet on every &self operation inside random histories. distinct = (length class, hasher, tombstones?, table full?, threads).",
